@@ -1,5 +1,5 @@
 from driver import Unit
-HARNESS_FILES = ["verif_cone.rs", "verif_bmoc.rs"]
+HARNESS_FILES = ["verif_cone.rs", "verif_bmoc.rs", "verif_c16.rs"]
 P = "nested::verif_cone::"
 both = ("quick", "thorough"); th = ("thorough",)
 REC = ["Layer::cone_coverage_approx_recur", "(tag stub) nested::get_or_create + Layer::center", "(contract stub) BMOCBuilderUnsafe::{new,push}"]
